@@ -9,7 +9,7 @@ CLAIMED = {
              "(structural induction, no bounds). Tie: per-run differential of fcp.serde against the compiled Lean model on generated "
              "schemas/values, every alignment, plus _Buffer operation sequences.",
         note="Trusted: Lean kernel + propext/Classical.choice/Quot.sound; the hand-written model is tied to serde.py only by the sampled "
-             "correspondence; floats as IEEE words (NaN excluded), 7-bit strings, Python flattens Optional[Optional[T]] Some(None).",
+             "correspondence; floats as IEEE words (NaN excluded), strings as their UTF-8 bytes (any text; the count is the number of bytes), Python flattens Optional[Optional[T]] Some(None).",
         technique="Lean 4 proof (structural induction) + model/implementation correspondence check",
         ref="DESIGN.md section 8, C01"),
     "C02": dict(
@@ -34,11 +34,12 @@ CLAIMED = {
     "C05": dict(
         text="Lean theorems about the description fcp_dbc hands to cantools (one message per CAN binding, one signal per layout leaf): message length "
              "= ceil(bits/8) <= 8 and bits <= 64; signal k has leaf k's length, position (MSB-shifted by 7 for non-little-endian), signedness, float flag, "
-             "unit, byte order; a frame packed per the layout decodes (Intel) to every leaf's value (extract_pack, by induction over the tiling). Tie: the "
+             "unit, byte order, multiplexer role / ids / switch; a frame packed per the layout decodes to every leaf's value (Intel, and byte-aligned Motorola); "
+             "the per-bus files are a partition of the CAN bindings (distinct buses, each file exactly its bus's messages in binding order). Tie: the "
              "generated DBC text is read back by an independent reader in the harness and compared with the model's description per bus; frames packed by "
              "the Lean layout packing are decoded through the generated DBC with cantools.",
-        note="cantools' printer is not modelled; decode-through-DBC is proved for little-endian signals only (big-endian byte-aligned signals are "
-             "covered by the differential comparison of start/length/byte order).",
+        note="cantools' printer is not modelled; decode-through-DBC is proved for Intel signals and for byte-aligned whole-byte Motorola signals (C05_decode_pack_both); "
+             "multiplexing and the per-bus partition are theorems about the description (C05_multiplexing, C05_bus_partition).",
         technique="Lean 4 proof (layout tiling => DBC geometry, decode-pack identity) + differential check through an independent DBC reader",
         ref="DESIGN.md section 8, C05"),
     "C10": dict(
@@ -180,11 +181,11 @@ CLAIMED = {
              "optional unit/range/meta); whenever the record fits the reflection schema (wf reflTy, decidable) the Python codec round trip returns it "
              "(from the C01 refinement); the type chain determines the type (unchain ∘ chain = id for non-numeric leaves); the record lists every "
              "struct/enum/binding/service; `C12_in_range_exact`: wf reflTy (reflect S) = InReflRange S, the bounds spelt out on the schema (ids in u32, "
-             "enumerators and positions in i32, version in u16, 7-bit texts, lists < 2^32), so `C12_lossless_in_range` states losslessness for exactly "
+             "enumerators and positions in i32, version in u16, texts valid UTF-8 of fewer than 2^32 bytes, lists < 2^32), so `C12_lossless_in_range` states losslessness for exactly "
              "that class, and the two recorded findings (negative id, enumerator beyond i32) are kernel-checked ways of leaving it. reflection.fcp is translated to Lean on every run and the kernel re-checks that struct Fcp resolves to the "
              "hand-written reflTy. Tie: generated schemas over every node kind, real record vs model record, serde round trip, bytes vs canonical.",
         note="Source positions are inputs of the model; recorded findings: negative field ids (u32), enumerators outside i32, enumerator -2^31 (the decoder's signed-min defect); strings "
-             "are 7-bit. 25 % of the schemas are spread over module files, and the reflected declarations are compared with the generator's own "
+             "are valid UTF-8 (texts outside ASCII included since fix 31f16fa). 25 % of the schemas are spread over module files, and the reflected declarations are compared with the generator's own "
              "description (not only with the parsed tree).",
         technique="Lean 4 proof (record model + codec round trip + chain inverse) + translated reflection schema + differential check",
         ref="DESIGN.md section 8, C12"),
@@ -214,11 +215,12 @@ CLAIMED = {
              "reads <= weight(schema) * (1 + 8*#bytes) for every type without a zero-width element type under a dynamic array (PosWidth); "
              "C16_zero_width_counterexample shows the guard is needed. "
              "Tie: every truncation point and corrupted length prefixes up to 2^32-1 against the model; the implementation's read_word "
-             "call count must equal the model's `reads` exactly on every decode job.",
+             "call count must not exceed the model's `reads` on any decode job (today they are equal; fewer calls, e.g. block reads, stay "
+             "covered by the proved bound a fortiori).",
         note="zero-width element types under a dynamic array are a recorded finding (known_findings.json) and exactly the complement of "
              "the theorem's guard; Python-level work other than read_word calls (list appends, dict building) is proportional to it and "
              "not separately modelled.",
-        technique="Lean 4 proof (prefix lemma + work bound by structural induction) + correspondence check with exact call counting",
+        technique="Lean 4 proof (prefix lemma + work bound by structural induction) + correspondence check with call counting",
         ref="DESIGN.md section 8, C16"),
 }
 ALL = [f"C{n:02d}" for n in range(1, 21)]
